@@ -46,6 +46,9 @@ CHECKS = {
  "C13": ("exploration", "runtime monitoring: direct drive of internal/ot with reflective access to results and reflection-driven single-field message alterations",
          "Defining relations of random/correlated/extended/additive OT for every batch index and degenerate choice vectors, products on a boundary lattice with setup reuse, and single-field alterations of all setup and online messages with the error-or-still-correct oracle.",
          "Reads unexported result fields with reflect+unsafe; oracle arithmetic is math/big.", "5/C13"),
+ "C20": ("fault_enumeration", "runtime monitoring: start-function lattice of single invalid parameters under recover, with follow-up sessions in the simulator when construction succeeds",
+         "Every start function of every protocol is called with one invalid parameter from a lattice of bad thresholds, identifier lists, signer sets, messages, key material (nil, empty, field-stripped) and presignatures; construction must return an error and never panic; if it succeeds the session runs with valid peers and must complete correctly (parameter harmless) - a panic, wrong result or harmed honest peer is a violation; valid controls must start and complete.",
+         "A parameter whose session completes correctly is treated as not invalid.", "5/C20"),
  "C16": ("exploration", "differential runtime monitoring against independent big-integer ECDSA / BIP-340 / recovery references",
          "Seeded differential exploration: every stand-alone primitive is run on valid signatures and a lattice of single-field perturbations and its verdict compared with an independent reference; held on what was observed.",
          "Trusts verif/ref (math/big, crypto/sha256), itself checked against BIP-340 vectors and a BIP-32 vector at start-up.", "5/C16"),
